@@ -19,7 +19,6 @@ import os
 import re
 import time
 
-from tools import codec_common as CC
 from tools import common as C
 from tools import gen_chunks
 from tools import replay as R
@@ -31,9 +30,11 @@ TIERS = {
     # exh: message lengths whose schedules are enumerated exhaustively; pend_by_len: (length bound, Pending
     # answers allowed per schedule) - 99 = every gap may hold 0..MAXRUN of them
     "quick": dict(exh=12, pend_by_len=[(7, 99), (12, 2)], sim=64, live_max=48, pool_first=30, pool_per_len=2, typed=6,
-                  wire=dict(nshards=2, workers=4), tlc_workers=8, jobs=8),
+                  wire=dict(nshards=2, workers=4, nprof=2, maxlen=2, deep=False, timeout=900),
+                  tlc_workers=8, jobs=8),
     "thorough": dict(exh=16, pend_by_len=[(9, 99), (14, 2), (16, 1)], sim=1024, live_max=128, pool_first=300, pool_per_len=2, typed=6,
-                     wire=dict(nshards=4, workers=2), tlc_workers=8, jobs=8),
+                     wire=dict(nshards=4, workers=2, nprof=3, maxlen=3, deep=False, timeout=3000),
+                     tlc_workers=8, jobs=8),
 }
 MAXRUN = 2
 EXPANSIONS = ("vanilla", "tbc", "wrath")
@@ -297,8 +298,7 @@ def observation(o):
 
 def prepare(tier, tag):
     t = dict(TIERS[tier])
-    tw = dict(CC.TIERS[tier])
-    tw.update(t["wire"])
+    tw = t["wire"]   # (the whole-corpus thorough bounds of C01 are not needed for a pool of world messages)
     ldir, lw, corpus = wire.prepare("lowered-" + tag)
     outdir = os.path.join(C.WORK, "wire-" + tag)
     wstats, paths = wire.run_wire(ldir, outdir, nshards=tw["nshards"], workers=tw["workers"], nprof=tw["nprof"],
